@@ -1,6 +1,7 @@
 """Fixed prelude imported (`from c01_prelude import *`) by every generated C01 program, so that
 pyanalyze's module and the instrumented execution see the *same* class and function objects.
 Every annotated function really returns what it declares."""
+import dataclasses
 import enum
 from contextlib import suppress
 from typing import Literal, Optional, Sequence, TypeVar, Union
@@ -26,6 +27,26 @@ class C:
 class Falsy(A):
     def __bool__(self) -> bool:
         return False
+
+
+@dataclasses.dataclass
+class Inner:
+    v: Optional[int]
+    w: Union[int, str]
+
+
+@dataclasses.dataclass
+class Outer:
+    a: Inner
+    b: Inner
+    n: Optional[int]
+    items: list[Optional[int]]
+
+
+@dataclasses.dataclass
+class Top:
+    o: Outer
+    p: Outer
 
 
 class E(enum.Enum):
@@ -85,7 +106,7 @@ def lib_either(x: T, y: U) -> Union[T, U]:
 
 
 __all__ = [
-    "A", "B", "C", "E", "Falsy", "IE", "Literal", "Optional", "Sequence", "T", "U", "Union", "Unpack",
+    "A", "B", "C", "E", "Falsy", "IE", "Inner", "Outer", "Top", "Literal", "Optional", "Sequence", "T", "U", "Union", "Unpack",
     "lib_dflt", "lib_either", "lib_first", "lib_ident", "lib_int", "lib_list", "lib_none", "lib_opt", "lib_pair",
     "lib_raise_if", "lib_str", "suppress",
 ]
